@@ -143,4 +143,29 @@ def pythValueToDecimal (value : Nat) (exponent : Int) (t q : Nat) : Except PythE
     | .ok r => .ok r
     | .error _ => .error .converting
 
+/-! ### `pyth_price_with_confidence_to_price(price : i64, confidence : u64, exponent, token config)` -/
+inductive PythCErr where
+  | midPrice      -- "mid_price": the price does not fit u64 (negative)
+  | minPrice      -- "min_price": confidence > price (the exact lower bound would be negative)
+  | maxPrice      -- "max_price": price + confidence overflows u64
+  | value (e : PythErr)
+  deriving DecidableEq, Repr
+
+def liftPyth : Except PythErr Decimal → Except PythCErr Decimal
+  | .ok d => .ok d
+  | .error e => .error (.value e)
+
+/-- `(min, max)` decimals of `price ± confidence` -/
+def pythWithConfidence (price : Int) (conf : Nat) (exponent : Int) (t q : Nat) : Except PythCErr (Decimal × Decimal) :=
+  if price < 0 ∨ ¬ price < 2 ^ 64 then .error .midPrice          -- i64 → u64 `try_into`
+  else if conf > price.toNat then .error .minPrice               -- `checked_sub`
+  else if ¬ price.toNat + conf < 2 ^ 64 then .error .maxPrice    -- `checked_add`
+  else
+    match liftPyth (pythValueToDecimal (price.toNat - conf) exponent t q) with
+    | .error e => .error e
+    | .ok mn =>
+      match liftPyth (pythValueToDecimal (price.toNat + conf) exponent t q) with
+      | .error e => .error e
+      | .ok mx => .ok (mn, mx)
+
 end Gmx.PriceDecimal
